@@ -680,11 +680,41 @@ Proof.
   apply (ptoks_cons_lit (L ", ") [comma_t]); [reflexivity|exact IH].
 Qed.
 
+(** replace every bound name by the tree of its value *)
+Fixpoint substv (vals : str -> sexpr) (e : sexpr) {struct e} : sexpr :=
+  match e with
+  | XBound n => vals n
+  | XCol _ | XWord _ | XNum _ | XStr _ => e
+  | XUn op x => XUn op (substv vals x)
+  | XNot x => XNot (substv vals x)
+  | XBin op x y => XBin op (substv vals x) (substv vals y)
+  | XIsNull n x => XIsNull n (substv vals x)
+  | XIn x vs => XIn (substv vals x) (map (substv vals) vs)
+  | XIndex x i => XIndex (substv vals x) (substv vals i)
+  | XCall f args => XCall f (map (substv vals) args)
+  | XCountIf c => XCountIf (substv vals c)
+  | XCase c t e' => XCase (substv vals c) (substv vals t) (substv vals e')
+  end.
+
+Lemma substv_fold vals bs : forall a, substv vals (fold_left (fun acc b => XBin w_concat acc b) bs a)
+  = fold_left (fun x y => XBin (L "||") x y) (map (substv vals) bs) (substv vals a).
+Proof. induction bs as [|b r IH]; intros a; [reflexivity|]. cbn [fold_left map]. rewrite IH. reflexivity. Qed.
+
 Section Writer.
 Variable c : ctx.
-Hypothesis scope_empty : c_scope c = [].
+Variable vals : str -> sexpr.           (* the tree of each bound name's value *)
+(** every binding in scope was written as an atom-like operand of its value's tree *)
+Hypothesis scope_ok : forall n ps, scope_get (c_scope c) n = Some ps -> exists ts, ptoks ps = Some ts /\ A ts (vals n).
 Let jm := mode_eqb (c_mode c) ModeJoin.
-Let T := trans (fun _ => false) jm.
+Let isb (n : str) : bool := match scope_get (c_scope c) n with Some _ => true | None => false end.
+Let T (e : expr) : sexpr := substv vals (trans isb jm e).
+
+Ltac fold_T :=
+  try rewrite !map_map;
+  repeat match goal with
+  | |- context [map (fun x => substv vals (trans isb jm x)) ?l] => change (map (fun x => substv vals (trans isb jm x)) l) with (map T l)
+  | |- context [substv vals (trans isb jm ?x)] => change (substv vals (trans isb jm x)) with (T x)
+  end.
 
 Lemma write_parts_toks m : forall ps pcs, write_parts m false ps = Ok pcs -> ptoks pcs = Some (dots (map iname ps)).
 Proof.
@@ -730,26 +760,28 @@ Qed.
 Lemma qual_body ps w pcs : ps <> [] -> wx c w (EQual ps) = Ok pcs -> exists ts, ptoks pcs = Some ts /\ Shape w ts (T (EQual ps)).
 Proof.
   intros Hne. cbn [wx]. intros H. eapply wrap_shape; [exact H| |intros; discriminate]. clear H.
-  intros b Hb. rewrite scope_empty in Hb. cbn [scope_get] in Hb.
+  intros b Hb.
   assert (Hgen : forall p r, write_parts (c_mode c) true (p :: r) = Ok b ->
             exists tsb, ptoks b = Some tsb /\ Body (EQual ps) tsb (XCol (map iname (p :: r)))).
   { intros p r Hw. eexists. split; [eapply write_parts_first; exact Hw|]. apply body_of_A. apply A_col. }
   destruct ps as [|p [|p2 r]]; [congruence| |].
   - unfold T. cbn [trans]. destruct (iquoted p) eqn:Eq; cbn [negb andb] in *.
-    + destruct (mode_eqb (c_mode c) ModeLet); [discriminate|]. apply (Hgen p []). exact Hb.
-    + destruct (assoc_str builtin_idents (iname p)) as [sql|] eqn:Eb.
-      * injection Hb as <-. destruct (builtin_word _ _ Eb) as [Hlex Hpw]. exists [SWord sql]. split.
-        { cbn [ptoks ptok]. rewrite Hlex. reflexivity. }
-        apply body_of_A. apply A_word. exact Hpw.
-      * destruct (mode_eqb (c_mode c) ModeLet); [discriminate|]. apply (Hgen p []). exact Hb.
-  - unfold T. cbn [trans]. destruct (mode_eqb (c_mode c) ModeLet); [discriminate|]. apply (Hgen p (p2 :: r)). exact Hb.
+    + cbn [substv]. destruct (mode_eqb (c_mode c) ModeLet); [discriminate|]. apply (Hgen p []). exact Hb.
+    + unfold isb. destruct (scope_get (c_scope c) (iname p)) as [sql|] eqn:Es.
+      * injection Hb as <-. cbn [substv]. destruct (scope_ok _ _ Es) as (ts & Hts & HA). exists ts. split; [exact Hts|]. apply body_of_A. exact HA.
+      * destruct (assoc_str builtin_idents (iname p)) as [sql|] eqn:Eb; cbn [substv].
+        { injection Hb as <-. destruct (builtin_word _ _ Eb) as [Hlex Hpw]. exists [SWord sql]. split.
+          { cbn [ptoks ptok]. rewrite Hlex. reflexivity. }
+          apply body_of_A. apply A_word. exact Hpw. }
+        destruct (mode_eqb (c_mode c) ModeLet); [discriminate|]. apply (Hgen p []). exact Hb.
+  - unfold T. cbn [trans substv]. destruct (mode_eqb (c_mode c) ModeLet); [discriminate|]. apply (Hgen p (p2 :: r)). exact Hb.
 Qed.
 
 Lemma lit_body sp k v w pcs : (k = KNumber \/ k = KString) -> wx c w (ELit sp k v) = Ok pcs ->
   exists ts, ptoks pcs = Some ts /\ Shape w ts (T (ELit sp k v)).
 Proof.
   intros Hk. cbn [wx]. intros H. eapply wrap_shape; [exact H| |intros; discriminate]. clear H.
-  intros b Hb. destruct Hk as [-> | ->]; injection Hb as <-; unfold T; cbn [trans].
+  intros b Hb. destruct Hk as [-> | ->]; injection Hb as <-; unfold T; cbn [trans substv].
   - exists [SNumber v]. split; [reflexivity|apply body_of_A, A_num].
   - exists [SString v]. split; [reflexivity|apply body_of_A, A_str].
 Qed.
@@ -847,7 +879,7 @@ Proof.
     { intros tx ty opn optok Hx Hy Hl G1 G2 G3 G4 G5 G6.
       eapply Fx_bin; try eassumption; apply A_C, A_call; try (split; reflexivity); try discriminate; (constructor; [assumption|constructor]). }
     apply body_of_Fx_ex; [reflexivity|].
-    unfold T. cbn [trans]. fold T. fold jm.
+    unfold T. cbn [trans]. fold jm.
     destruct op; try discriminate Hop; try congruence; cbn [binop_sql] in Hb |- *.
     all: try (apply Hmaybe in Hb as (px & py & tx & ty & Hb & Hpx & Hpy & Hcx & Hcy); injection Hb as <-;
               eexists; split; [ptk|]; eapply Fx_bin; try eassumption; reflexivity).
@@ -870,7 +902,7 @@ Proof.
     cbn [wfr] in Hwf. destruct Hwf as (Hop & Hw1).
     cbn [wx] in Hx. eapply wrap_shape; [exact Hx| |intros; discriminate]. clear Hx. intros b Hb.
     apply bind_ok in Hb as (px & Hpx & Hb). destruct (IHe Hw1 WOperand px Hpx) as (tx & Htx & Hsx). cbn [Shape] in Hsx.
-    unfold T. cbn [trans]. fold T.
+    unfold T. cbn [trans substv map]. fold_T.
     destruct Hop as [-> | ->]; injection Hb as <-.
     + exists (SPunct p_plus :: tx). split; [ptk|]. split; [apply C_Fx|split; [intros _|intros _ Hn; exfalso; eapply Hn; reflexivity]];
         apply C_unary; [right; reflexivity|apply A_C; exact Hsx| right; reflexivity|apply A_C; exact Hsx].
@@ -882,18 +914,18 @@ Proof.
     apply bind_ok in Hb as (px & Hpx & Hb). apply bind_ok in Hb as (pvs & Hpvs & [= <-]).
     destruct (IHe Hw1 WMaybe px Hpx) as (tx & Htx & Hsx). cbn [Shape] in Hsx.
     apply sequence_ok in Hpvs. destruct (Forall2_seq WMaybe vs pvs H Hall Hpvs) as (tl & Htl & Hsl).
-    apply body_of_Fx_ex; [reflexivity|]. unfold T. cbn [trans]. fold T.
+    apply body_of_Fx_ex; [reflexivity|]. unfold T. cbn [trans substv map]. fold_T.
     exists (tx ++ SWord k_IN :: lp_t :: join_toks tl ++ [rp_t]). split.
     { pose proof (join_pieces_toks _ _ Htl) as Hj. ptk. }
     apply Fx_in; [exact Hsx| |].
     + eapply Forall2_impl; [|exact Hsl]. intros ? ? Hc. apply C_Fx. exact Hc.
     + eapply Forall2_ne; [exact Hsl|]. destruct vs; [congruence|discriminate].
-  - (* parentheses *) cbn [wfr] in Hwf. cbn [wx] in Hx. unfold T. cbn [trans]. fold T. apply IHe; assumption.
+  - (* parentheses *) cbn [wfr] in Hwf. cbn [wx] in Hx. unfold T. cbn [trans]. fold_T. apply IHe; assumption.
   - (* literals *) apply lit_body; assumption.
   - (* calls *)
     cbn [wfr] in Hwf. destruct Hwf as (Hname & Hall). apply wfr_all in Hall.
     cbn [wx] in Hx. eapply wrap_shape; [exact Hx| |intros; discriminate]. clear Hx. intros b Hb.
-    unfold T. cbn [trans]. fold T.
+    unfold T. cbn [trans substv map]. fold_T.
     assert (IHarg : forall a w pa, In a args -> wx c w a = Ok pa -> exists ta, ptoks pa = Some ta /\ Shape w ta (T a)).
     { intros a w0 pa Hin Hpa. rewrite Forall_forall in H, Hall. apply (H a Hin (Hall a Hin) w0 pa Hpa). }
     destruct (known_func (iname f)) as [[wr np]|] eqn:Ek.
@@ -944,7 +976,7 @@ Proof.
         match goal with Hs : sequence (map (wx c WMaybe) r) = Ok ?rest |- _ => apply sequence_ok in Hs; rename Hs into Hseq; rename rest into prest end.
         inversion H as [|a0 l0 _ Hr]; subst. inversion Hall as [|a1 l1 _ Hwr]; subst.
         destruct (Forall2_seq WMaybe r prest Hr Hwr Hseq) as (tl & Htl & Hsl).
-        apply body_of_Fx_ex; [exact Hcx|]. cbn [map].
+        apply body_of_Fx_ex; [exact Hcx|]. cbn [map]. rewrite substv_fold. fold_T.
         exists (ta ++ flat_map (fun tb => cat_t :: tb) tl). split.
         { pose proof (flat_pieces_toks _ _ Htl) as Hfl. rewrite app_nil_r. apply ptoks_app; [exact Hta|exact Hfl]. }
         apply Fx_chain; [exact Hsa|exact Hsl].
@@ -955,7 +987,7 @@ Proof.
         match goal with Hq : wx c WPlain a = Ok ?pa |- _ => destruct (IHarg a WPlain pa (or_introl eq_refl) Hq) as (ta & Hta & Hsa) end. cbn [Shape] in Hsa.
         apply body_of_Fx_ex; [exact Hcx|]. eexists. split; [|apply A_Fx, (A_call w_UPPER [ta] [T a]); [split; reflexivity|constructor; [exact Hsa|constructor]|discriminate]]. ptk.
     + (* a function passed through by name *)
-      specialize (Hname eq_refl).
+      cbn [substv]. fold_T. specialize (Hname eq_refl).
       apply bind_ok in Hb as (pargs & Hpargs & [= <-]). apply sequence_ok in Hpargs.
       destruct (Forall2_seq WPlain args pargs H Hall Hpargs) as (tl & Htl & Hsl).
       assert (Hcx : complex (ECall f lp args rp) = false) by (cbn [complex]; rewrite Ek; reflexivity).
@@ -969,10 +1001,71 @@ Proof.
     cbn [wx] in Hx. eapply wrap_shape; [exact Hx| |intros; discriminate]. clear Hx. intros b Hb.
     apply bind_ok in Hb as (px & Hpx & Hb). apply bind_ok in Hb as (pi & Hpi & [= <-]).
     destruct (IHe1 Hw1 WOperand px Hpx) as (tx & Htx & Hsx). destruct (IHe2 Hw2 WPlain pi Hpi) as (ti & Hti & Hsi). cbn [Shape] in Hsx, Hsi.
-    apply body_of_Fx_ex; [reflexivity|]. unfold T. cbn [trans]. fold T.
+    apply body_of_Fx_ex; [reflexivity|]. unfold T. cbn [trans substv map]. fold_T.
     exists (tx ++ lb_t :: ti ++ [rb_t]). split; [ptk|]. apply C_Fx, C_index; assumption.
 Qed.
 End Writer.
+
+(** ** scopes: the empty scope, and the scope a chain of let statements builds *)
+Lemma trans_ext (f g : str -> bool) jm : (forall n, f n = g n) -> forall e, trans f jm e = trans g jm e.
+Proof.
+  intros Hfg. induction e using expr_ind'; cbn [trans].
+  - destruct ps as [|p [|p2 r]]; try reflexivity. rewrite Hfg. reflexivity.
+  - rewrite IHe1, IHe2. reflexivity.
+  - rewrite IHe. reflexivity.
+  - rewrite IHe. f_equal. apply map_ext_in. intros a Ha. rewrite Forall_forall in H. apply H. exact Ha.
+  - exact IHe.
+  - reflexivity.
+  - assert (Hm : map (trans f jm) args = map (trans g jm) args) by (apply map_ext_in; intros a Ha; rewrite Forall_forall in H; apply H; exact Ha).
+    rewrite Hm. reflexivity.
+  - rewrite IHe1, IHe2. reflexivity.
+Qed.
+
+Lemma map_id_on {X} (f : X -> X) l : Forall (fun x => f x = x) l -> map f l = l.
+Proof. induction 1 as [|x l Hx Hl IH]; [reflexivity|]. cbn [map]. rewrite Hx, IH. reflexivity. Qed.
+
+Lemma substv_fold_id vals bs : forall a, substv vals a = a -> Forall (fun b => substv vals b = b) bs ->
+  substv vals (fold_left (fun acc b => XBin w_concat acc b) bs a) = fold_left (fun acc b => XBin w_concat acc b) bs a.
+Proof.
+  induction bs as [|b r IH]; intros a Ha Hb; [exact Ha|]. inversion Hb; subst. cbn [fold_left]. apply IH; [cbn [substv]; rewrite Ha, H1; reflexivity|assumption].
+Qed.
+
+(** with nothing bound, no bound name occurs in the intended tree *)
+Lemma substv_nobound vals jm : forall e, substv vals (trans (fun _ => false) jm e) = trans (fun _ => false) jm e.
+Proof.
+  induction e using expr_ind'; cbn [trans].
+  - destruct ps as [|p [|p2 r]]; try reflexivity. rewrite Bool.andb_false_r.
+    destruct (negb (iquoted p)); [destruct (assoc_str builtin_idents (iname p))|]; reflexivity.
+  - destruct op; cbn [binop_sql substv map]; rewrite ?IHe1, ?IHe2; try reflexivity.
+    destruct (jm && _); cbn [substv map]; rewrite ?IHe1, ?IHe2; reflexivity.
+  - cbn [substv]. rewrite IHe. reflexivity.
+  - cbn [substv]. rewrite IHe. f_equal. rewrite map_map. apply map_ext_in. intros a Ha. rewrite Forall_forall in H. apply H. exact Ha.
+  - exact IHe.
+  - destruct k; reflexivity.
+  - assert (Hall : Forall (fun b => substv vals b = b) (map (trans (fun _ => false) jm) args)).
+    { apply Forall_forall. intros b Hb. apply in_map_iff in Hb as (a & <- & Ha). rewrite Forall_forall in H. apply H. exact Ha. }
+    destruct (known_func (iname f)) as [[wr np]|].
+    + destruct wr; try reflexivity;
+        try (destruct (map (trans (fun _ => false) jm) args) as [|a [|b [|c0 [|d r]]]]; try reflexivity;
+             repeat match goal with Hf : Forall _ (_ :: _) |- _ => inversion Hf; clear Hf; subst end;
+             cbn [substv map]; repeat match goal with Hq : substv vals ?x = ?x |- _ => rewrite Hq; clear Hq end; reflexivity).
+      (* strcat *)
+      destruct (map (trans (fun _ => false) jm) args) as [|a r]; [reflexivity|]. inversion Hall; subst.
+      apply substv_fold_id; assumption.
+    + cbn [substv]. rewrite (map_id_on _ _ Hall). reflexivity.
+  - cbn [substv]. rewrite IHe1, IHe2. reflexivity.
+Qed.
+
+(** the empty scope *)
+Theorem wx_reads_empty c : c_scope c = [] -> forall e, wfr e -> forall w ps, wx c w e = Ok ps ->
+  exists ts, ptoks ps = Some ts /\ Shape w ts (trans (fun _ => false) (mode_eqb (c_mode c) ModeJoin) e).
+Proof.
+  intros Hsc e Hwf w ps Hw.
+  destruct (wx_reads c (fun _ => XWord []) ltac:(intros n ps0 Hn; rewrite Hsc in Hn; discriminate) e Hwf w ps Hw) as (ts & Ht & Hs).
+  exists ts. split; [exact Ht|].
+  rewrite (trans_ext _ (fun _ => false)) in Hs by (intros n; rewrite Hsc; reflexivity).
+  rewrite substv_nobound in Hs. exact Hs.
+Qed.
 
 (** ** from the parser to the reader *)
 From PQL Require Import Spec.Flatten Proofs.ParserSound Proofs.ParserReject.
@@ -1020,8 +1113,70 @@ Theorem printed_expression_rereads srclen f ts e rest ps :
 Proof.
   intros Hp Hn Hw. destruct (p_expr_sound _ _ _ _ _ Hp) as (used & _ & Hu).
   pose proof (proj1 parsed_wfr _ _ Hu Hn) as Hwf.
-  destruct (wx_reads c scope_empty e Hwf WPlain ps Hw) as (toks & Ht & [_ HF]). cbn [Shape] in HF.
+  destruct (wx_reads_empty c scope_empty e Hwf WPlain ps Hw) as (toks & Ht & [_ HF]). cbn [Shape] in HF.
   exists toks. split; [exact Ht|]. destruct (HF [] I) as (f0 & Hf0). exists f0. intros fuel Hle.
   specialize (Hf0 fuel Hle). rewrite app_nil_r in Hf0. exact Hf0.
 Qed.
 End TopLevel.
+
+(** ** C06: the scope a chain of let statements builds *)
+Definition scope_inv (sc : scope) (vals : str -> sexpr) : Prop :=
+  forall n ps, scope_get sc n = Some ps -> exists ts, ptoks ps = Some ts /\ A ts (vals n).
+Definition isb_of (sc : scope) (n : str) : bool := match scope_get sc n with Some _ => true | None => false end.
+Definition bound_in (names : list str) (n : str) : bool := existsb (fun k => str_eqb k n) names.
+
+(** the documented scoping rules as a function: a let before the query binds its name to the
+    tree of its value read in the scope of the lets before it (a later let of the same name
+    shadows); lets after the query bind nothing *)
+Fixpoint let_vals (names : list str) (vals : str -> sexpr) (after_query : bool) (ss : list stmt) : list str * (str -> sexpr) :=
+  match ss with
+  | [] => (names, vals)
+  | STab _ :: r => let_vals names vals true r
+  | SLet _ name _ x :: r =>
+    if after_query then let_vals names vals after_query r
+    else
+      let v := substv vals (trans (bound_in names) false x) in
+      let_vals (iname name :: names) (fun n => if str_eqb (iname name) n then v else vals n) after_query r
+  end.
+
+Definition lets_wfr (ss : list stmt) : Prop :=
+  Forall (fun s => match s with SLet _ _ _ x => wfr x | STab _ => True end) ss.
+
+Theorem let_chain_scope : forall ss sc names vals q sc' q',
+  lets_wfr ss -> scope_inv sc vals -> (forall n, isb_of sc n = bound_in names n) ->
+  stmt_loop sc q ss = Ok (sc', q') ->
+  let '(names', vals') := let_vals names vals (match q with Some _ => true | None => false end) ss in
+  scope_inv sc' vals' /\ (forall n, isb_of sc' n = bound_in names' n).
+Proof.
+  induction ss as [|s r IH]; intros sc names vals q sc' q' Hwf Hinv Hnames Hloop; cbn [stmt_loop let_vals] in *.
+  - injection Hloop as <- <-. split; assumption.
+  - inversion Hwf as [|s0 r0 Hs Hr]; subst. destruct s as [kw name asp x|t].
+    + destruct q as [t0|].
+      * apply (IH sc names vals (Some t0) sc' q' Hr Hinv Hnames Hloop).
+      * apply bind_ok in Hloop as (v & Hv & Hloop).
+        set (tree := substv vals (trans (bound_in names) false x)).
+        assert (HA : exists ts, ptoks v = Some ts /\ A ts tree).
+        { destruct (wx_reads (mkCtx sc ModeLet) vals Hinv x Hs WOperand v Hv) as (ts & Hts & HAs). exists ts. split; [exact Hts|].
+          cbn [Shape c_scope c_mode mode_eqb] in HAs. unfold tree.
+          rewrite (trans_ext _ (bound_in names)) in HAs; [exact HAs|]. intros n. apply Hnames. }
+        apply (IH ((iname name, v) :: sc) (iname name :: names) (fun n => if str_eqb (iname name) n then tree else vals n) None sc' q' Hr); [| |exact Hloop].
+        -- intros n ps. cbn [scope_get]. destruct (str_eqb (iname name) n); [intros [= <-]; exact HA|apply Hinv].
+        -- intros n. unfold isb_of, bound_in. cbn [scope_get existsb]. destruct (str_eqb (iname name) n); [reflexivity|apply Hnames].
+    + destruct q as [t0|]; [discriminate|]. apply (IH sc names vals (Some t) sc' q' Hr Hinv Hnames Hloop).
+Qed.
+
+(** Every expression of the query, written in the scope the let statements built (no parameters),
+    re-reads as its intended tree with each bound name replaced by the tree of its let value:
+    a substituted value always acts as one operand, whatever operators surround the name. *)
+Theorem let_values_act_as_operands ss sc' t : lets_wfr ss -> stmt_loop [] None ss = Ok (sc', Some t) ->
+  let '(names, vals) := let_vals [] (fun _ => XWord []) false ss in
+  forall mode e w ps, wfr e -> wx (mkCtx sc' mode) w e = Ok ps ->
+    exists ts, ptoks ps = Some ts /\ Shape w ts (substv vals (trans (bound_in names) (mode_eqb mode ModeJoin) e)).
+Proof.
+  intros Hwf Hloop.
+  pose proof (let_chain_scope ss [] [] (fun _ => XWord []) None sc' (Some t) Hwf ltac:(intros n ps H; discriminate) ltac:(intros n; reflexivity) Hloop) as H.
+  cbn iota in H. destruct (let_vals [] (fun _ => XWord []) false ss) as [names vals]. destruct H as [Hinv Hnames].
+  intros mode e w ps He Hw.
+  destruct (wx_reads (mkCtx sc' mode) vals Hinv e He w ps Hw) as (ts & Hts & Hs). exists ts. split; [exact Hts|].
+  cbn [c_scope c_mode] in Hs. rewrite (trans_ext _ (bound_in names)) in Hs; [exact Hs|]. intros n. apply Hnames.
+Qed.
